@@ -100,3 +100,18 @@ pub fn run_case(line: &str) -> String {
         Err(p) => format!("PANIC {}", panic_msg(p)),
     }
 }
+
+/// case: <max_cycles or "none"> <expected_cycles>
+pub fn run_options(line: &str) -> String {
+    let t: Vec<&str> = line.split_whitespace().collect();
+    let mc: Option<u32> = if t[0] == "none" { None } else { Some(t[0].parse().unwrap()) };
+    let e: u32 = t[1].parse().unwrap();
+    let res = catch_unwind(AssertUnwindSafe(|| match ExecutionOptions::new(mc, e, false) {
+        Ok(o) => format!("OK {} {}", o.max_cycles(), o.expected_cycles()),
+        Err(_) => "ERR".to_string(),
+    }));
+    match res {
+        Ok(s) => s,
+        Err(p) => format!("PANIC {}", panic_msg(p)),
+    }
+}
